@@ -37,7 +37,7 @@ PROJECTION = {
 
 
 # property theorem modules (filled in as proofs land)
-PROP_MODS = {}
+PROP_MODS = {p: f"GgrsModel.Properties.{p}" for p in ["C03", "C04", "C06", "C07", "C08", "C12", "C16"]}
 
 
 def in_projection(prop, cls):
